@@ -63,6 +63,17 @@ class SnippetMonitor:
         z = args[0]
         t = args[1] if len(args) > 1 else kwargs.get("t")
         n = args[2] if len(args) > 2 else kwargs.get("n")
+        # the signal the snippet was taken from is still what it was (the next snippet of it starts from the same labels)
+        m_after = monitors.meta_of(z)
+        ctx.count("oracle[snippet_input_unchanged]")
+        for k_ in ("rate", "fc", "bw", "align", "pol", "meta", "len", "dtype"):
+            if k_ in m and m[k_] != m_after.get(k_):
+                ctx.violation(o, f"snippet changed {k_} of the signal it was given: {m[k_]!r} -> {m_after.get(k_)!r}", None,
+                              {"what": "input_relabelled", "attr": k_})
+        if not monitors.same_time(m["start"], m_after["start"], 0):
+            drift = None if (m["start"] is None or m_after["start"] is None) else float(exact.time_diff_s(m_after["start"], m["start"]) * m["rate"])
+            ctx.violation(o, f"snippet moved the start_time of the signal it was given (by {drift} samples)", None,
+                          {"what": "input_relabelled", "attr": "start"})
         if np.ndim(t if not isinstance(t, Time) else 0) > 0 or (isinstance(t, Time) and not t.isscalar) or isinstance(t, (str, bytes, type(None))):
             return          # non-scalar / non-numeric t: outside the property's domain
         ctx.count("snippet_events")
@@ -123,7 +134,8 @@ class SnippetMonitor:
                 if k == "dtype" and np.dtype(m[k]).kind in "iub" and te != math.floor(te) and np.dtype(mo[k]).kind == "f":
                     continue        # integer samples interpolated at a fractional offset are no longer integers
                 ctx.violation(o, f"snippet changed {k}: {m[k]!r} -> {mo.get(k)!r}", None, dict(feats, what="meta_" + k))
-        near_whole = abs(te - round(te)) <= max(slack * 4, F(1, 10 ** 9))     # a grid instant written as a time: either path is right
+        # a grid instant written as a time, or a residual the shift routine treats as zero (|s| <= 1e-6, see C03): either path is right
+        near_whole = abs(te - round(te)) <= max(slack * 4, F(1, 10 ** 6))
         if np.dtype(m["dtype"]).kind in "iub" and not near_whole and np.dtype(mo["dtype"]).kind in "iub" and n_i > 0:
             ctx.violation(o, f"snippet at a fractional offset of {m['dtype']} data returned {mo['dtype']} samples: the interpolated values "
                              "were rounded back to integers", None, dict(feats, what="int_truncation"))
@@ -226,7 +238,7 @@ def wl_snippet(ctx, idx, rng):
         if tk == "half":
             t = k + 0.5
         elif tk == "eps":
-            t = k + float(gen.pick(rng, [1e-3, 1e-5, 2.0 ** -20]))
+            t = k + float(gen.pick(rng, [1e-3, 1e-5, 2.0 ** -20, 8e-9, 3e-9, 1e-9]))
         elif tk == "one_minus_eps":
             t = k + 1 - float(gen.pick(rng, [1e-3, 1e-5, 2.0 ** -20]))
         elif tk == "deep_small_frac":
